@@ -87,7 +87,7 @@ pub fn check_a(v: &RVal, rec: &mut Rec) -> Verdict {
     }
     rec.sample(|| format!("A: {:?}", trunc(&text, 200)));
     match rz::read(&text) {
-        Ok(back) => diff_verdict("C04:A", v, &back, &text, rec),
+        Ok(back) => diff_verdict_strict_zero("C04:A", v, &back, &text, rec),
         Err(e) => Verdict::fail(
             format!("C04:A:not-a-sentence:{}", shape(v)),
             format!("the reference reader (grammar) rejects libhaystack's output {:?}: {e}", trunc(&text, 300)),
@@ -116,7 +116,7 @@ pub fn check_b(c: &Spelled, rec: &mut Rec) -> Verdict {
         Ok(b) => b,
         Err(f) => return prefix_sig("C04:B", f, &shape(&v)),
     };
-    diff_verdict("C04:B", &v, &project(&back), &text, rec)
+    diff_verdict_strict_zero("C04:B", &v, &project(&back), &text, rec)
 }
 
 pub fn run(ctx: &mut Ctx) {
